@@ -104,6 +104,15 @@ func C04(t *rapid.T) *world.Scenario {
 			{H("X-A", "1"), H("X-B", "x")}, {H("X-A", "1"), H("X-B", "y")},
 			{H("X-A", "2"), H("X-B", "x")}, {H("X-A", "2"), H("X-B", "y")},
 		}
+	} else if Pct(t, "twins", 12) {
+		// pairs of values that a lossy or non-injective encoding of the stored value (text
+		// encodings, escaping, case folding, trimming) could map to the same thing
+		pairs := [][2]string{{"caf$XE9", "caf%E9"}, {"caf$XE9", "caf$XEF$XBF$XBD"}, {"caf$XE9", "caf$XE8"}, {"caf$XE9", "636166e9"},
+			{"caf$XE9", "caf\\xe9"}, {"caf$XE9", "caf?"}, {"caf$XE9", "caf$XC3$XA9"}, {"$XC3$XA9", "%C3%A9"}, {"a%2Cb", "a,b"}, {"a\"b", "a%22b"},
+			{"$XFF", "$XFE"}, {"$XFF$XFE", "$XFE$XFF"}, {"x$XE9y$XE9", "x$XE9y%E9"}}
+		pr := pairs[rapid.IntRange(0, len(pairs)-1).Draw(t, "twinpair")]
+		f := Pick(t, "twinfield", "X-A", "X-A", "X-B", "Cookie", "User-Agent")
+		pool = [][][2]string{{H(f, pr[0])}, {H(f, pr[1])}, {H(f, pr[0]), H("X-Z", "1")}}
 	} else if Pct(t, "family", 40) {
 		// re-splits of one string: the same characters distributed differently over the
 		// nominated fields (an identity derived from undelimited text cannot tell them apart)
